@@ -16,6 +16,7 @@ Viol(c) ==
 \cup (IF Cardinality(AsSet(c.patchshas)) = 1 THEN {} ELSE {"SamePatchBytes"})
 \cup (IF Cardinality(AsSet(c.sigshas)) = 1 THEN {} ELSE {"SameSignatureBytes"})
 \cup (IF Cardinality(AsSet(c.optshas)) = 1 THEN {} ELSE {"OptimizerDeterministic"})
+\cup (IF Len(c.anamaps) = 1 /\ (c.optmaps = <<>> \/ c.anamaps[1] = c.optmaps[1]) THEN {} ELSE {"OptimizerChoosesSameTargetsEveryTime"})
 Report == Viol(T[l]) = {} \/ PrintT(<<"VIOL", l, Viol(T[l])>>)
 Stats == PrintT(<<"STAT", l, T[l].runs, Cardinality(AsSet(T[l].procs))>>)
 =============================================================================
